@@ -29,6 +29,8 @@ DECIDED = [
     "TAB-5 link and include are format keys, readable and constructor keywords (saved after clean)",
     "PROV-10 the link / include setters store the value they were given",
     "LOOKUP-1 (shared with C14) path lookup matches names by plain equality",
+    "CLEAN-1 clean() reaches every Section below the start: BaseSection.clean passes on to the inherited clean on every path, which visits every child",
+    "CACHE-2 the cache file of an included / terminology URL is named by a digest of the whole URL (two URLs never share a cache file)",
     "FIN-1 finalize visits every Section of the document and resolves through the public setters",
 ]
 NOT_DECIDED = [
@@ -37,6 +39,38 @@ NOT_DECIDED = [
     "chained / nested links",
     "equality based selection of what unmerge removes",
 ]
+
+
+def cache_key_rule(prog, rep, rule="CACHE-2"):
+    """(shared with C18) terminology.cache_load / templates.cache_load: the cache file name contains a cryptographic digest whose input is the
+    complete url parameter; a digest of a part of it (the base name) lets two different URLs resolve to one cached file."""
+    from ..model import canonical_name
+    rep.rule(rule, "in both cache_load functions the file that is opened is os.path.join(<cache dir>, <name>) where <name> is built from "
+                   "hashlib.<digest>(<url>.encode(...)).hexdigest() of the unmodified url parameter")
+    for modname in ("terminology", "templates"):
+        f = prog.func(modname + ".cache_load")
+        rep.saw_function(f)
+        x = Expander(f, inline=prog)
+        url = f.params[0]
+        digests = []
+        for h in private_closure(f):
+            hx = x if h is f else Expander(h, inline=prog)
+            for c in calls_in(h.node):
+                cn = canonical_name(prog, h, c.func)
+                if cn.startswith("hashlib.") and c.args:
+                    digests.append((h, c, hx.text(c.args[0])))
+        rep.check(bool(digests), rule, "%s.cache_load names the cache file by a digest" % modname, "ok",
+                  "%s.cache_load no longer derives the cache file name from a digest" % modname, f.where)
+        for h, c, arg in digests:
+            whole = h is f and (arg == "%s.encode()" % url or arg.startswith("%s.encode(" % url))
+            if h is not f:
+                # a helper: its digest input must be its own parameter, and the call site must pass the url
+                sites = [c2 for c2 in calls_in(f.node) if call_name(c2).split(".")[-1] == h.name]
+                hp = [p0 for p0 in h.params if arg in ("%s.encode()" % p0,) or arg.startswith("%s.encode(" % p0)]
+                whole = bool(hp) and bool(sites) and all(len(c2.args) > h.params.index(hp[0]) and x.text(c2.args[h.params.index(hp[0])]) == url for c2 in sites)
+            rep.check(whole, rule, "%s.cache_load digests the whole URL" % modname, arg[:50],
+                      "the digest in the cache file name is computed from `%s`, not from the complete URL: different URLs can share a cache file"
+                      % arg[:60], where(h, c), witness="includes of .../rig_a/X.xml#/setup and .../rig_b/X.xml#/setup resolve to the same content")
 
 
 def run(prog, rep):
@@ -114,6 +148,46 @@ def run(prog, rep):
     # the reference is resolved through the path lookup: names are matched exactly (shared with C14)
     from .c14 import exact_name_match
     exact_name_match(prog, rep, "LOOKUP-1")
+
+    # --------------------------------------------------------------- CLEAN-1
+    rep.rule("CLEAN-1", "BaseSection.clean: every normal path calls the inherited clean (super().clean()); Sectionable.clean calls clean() on "
+                        "every element of self / self._sections without an early exit")
+    bc = prog.func("section.BaseSection.clean")
+    rep.saw_function(bc)
+    bg = build_cfg(bc)
+    ups = set()
+    for n in bg.nodes:
+        for root in n.expr_roots():
+            for c in calls_in(root):
+                if isinstance(c.func, ast.Attribute) and c.func.attr == "clean" and (
+                        (isinstance(c.func.value, ast.Call) and call_name(c.func.value) == "super") or
+                        (unparse(c.func.value).split(".")[-1] == "Sectionable" and c.args and unparse(c.args[0]) == bc.params[0])):
+                    ups.add(n.id)
+    from ..logic import reach_avoiding
+    ok = bool(ups) and not reach_avoiding(bg, bg.entry, bg.exit, lambda s0, k0, d0: d0.id in ups, skip_kinds=("exc",))
+    rep.check(ok, "CLEAN-1", "BaseSection.clean always continues with its children", "super().clean() on every path",
+              "BaseSection.clean can return without calling the inherited clean: linking Sections below a linking Section stay resolved",
+              bc.where, witness="finalize() then clean() on a document with a linking Section inside a linking Section: the inner one keeps the copies")
+    sc = prog.func("base.Sectionable.clean")
+    rep.saw_function(sc)
+    sg = build_cfg(sc)
+    sx = Expander(sc, sg)
+    loops = [n for n in sg.nodes if n.kind == "for" and sx.text(strip_order_keeping(n.ast.iter)[0], n) in
+             (sc.params[0], "%s._sections" % sc.params[0], "%s.sections" % sc.params[0])]
+    good = len(loops) == 1 and not any(isinstance(y, (ast.Break, ast.Return, ast.Continue)) for y in ast.walk(loops[0].ast))
+    if good:
+        lp = loops[0]
+        var = lp.ast.target.id if isinstance(lp.ast.target, ast.Name) else None
+        calls = [n for n in sg.nodes if any(isinstance(c.func, ast.Attribute) and c.func.attr == "clean" and unparse(c.func.value) == var
+                                            for root in n.expr_roots() for c in calls_in(root))]
+        ids = set(n.id for n in calls)
+        first = [m for k, m in lp.succ if k == "iter"][0]
+        good = bool(ids) and (first.id in ids or not reach_avoiding(sg, first, lp, lambda s0, k0, d0: d0.id in ids, skip_kinds=("exc",)))
+    rep.check(good, "CLEAN-1", "Sectionable.clean cleans every child Section", "for child in self: child.clean()",
+              "Sectionable.clean does not call clean() on every child Section", sc.where)
+
+    # --------------------------------------------------------------- CACHE-2
+    cache_key_rule(prog, rep, "CACHE-2")
 
     # ----------------------------------------------------------------- FIN-1
     rep.rule("FIN-1", "Document.finalize loops over self.itersections(recursive=True) and re-assigns link / include through "
